@@ -185,22 +185,32 @@ func (x *Ctx) StartStallWatchdog(limit time.Duration, path string) {
 			}
 			return time.Duration(ru.Utime.Nano() + ru.Stime.Nano())
 		}
-		last, since, wall, prev := x.seq.Load(), time.Duration(0), time.Duration(0), cpu()
+		// ... and a case during which the whole process has used no processor time at all for a minute on end is blocked,
+		// not slow (a starved process on an oversubscribed machine still gets its share every few seconds): it is named
+		// after that minute instead of after ten times the limit (after seeded change C01-wave10-C, a call that never
+		// returns and never spins)
+		const idleLimit = 60 * time.Second
+		last, since, wall, idle, prev := x.seq.Load(), time.Duration(0), time.Duration(0), time.Duration(0), cpu()
 		for {
 			time.Sleep(step)
 			cur, now := x.seq.Load(), cpu()
 			used := now - prev
 			prev = now
 			if cur != last || cur%2 == 0 {
-				last, since, wall = cur, 0, 0
+				last, since, wall, idle = cur, 0, 0, 0
 				continue
+			}
+			if used < 5*time.Millisecond {
+				idle += step
+			} else {
+				idle = 0
 			}
 			if used > step*4 {
 				used = step * 4 // many goroutines on many cores: count the round, not the cores
 			}
 			since += used
 			wall += step
-			if since < limit && wall < 10*limit {
+			if since < limit && wall < 10*limit && idle < idleLimit {
 				continue
 			}
 			// the main goroutine last wrote the case before the Add we observed and has not left it since
